@@ -44,6 +44,13 @@ class Unsupported(Exception):
     pass
 
 
+ALIASES = [('self.jump_interval', 'self._jump_interval'),
+           ('self.jump_interval_duration', 'self._jump_interval_duration'),
+           ('self.iteration', 'self._iteration'), ('self.lastclear', 'self._lastclear'),
+           ('self.hasblobs', 'self._hasblobs'), ('self.scratchlen', 'self._scratchlen'),
+           ('self.betas', 'self._betas'), ('chain.betas', 'chain._betas')]
+
+
 def lname(n):
     return n + '_' if n in LEAN_KEYWORDS else n
 
@@ -59,6 +66,13 @@ class Tr:
         self.types = dict(spec.get('types', {}))
         for p, t in spec['params']:
             self.types.setdefault(p, t)
+        # a public read-only property and the private attribute it returns are the same value: a rewrite
+        # from one to the other must not make a kernel untranslatable
+        for a, b in ALIASES:
+            if a in self.bind and b not in self.bind:
+                self.bind[b] = self.bind[a]
+            elif b in self.bind and a not in self.bind:
+                self.bind[a] = self.bind[b]
         self.opt = spec.get('opt', {})
         self.assume_false = set(spec.get('assume_false', []))
         self.effects = spec.get('effects', {})
